@@ -310,13 +310,38 @@ class Alt:
 
 
 class Seq:
-    """A symbolic iterator over a container `src`: every element has the symbolic shape `elem` (index atom `i` when enumerated)."""
+    """A symbolic iterator over a container `src`: element number idx has the symbolic value fn(idx)."""
 
-    def __init__(self, src, elem, enumerated=False):
-        self.src, self.elem, self.enumerated = src, elem, enumerated
+    def __init__(self, src, fn, enumerated=False):
+        self.src, self.fn, self.enumerated = src, fn, enumerated
+
+    @property
+    def elem(self):
+        return self.fn(Poly.atom("i"))
 
     def key(self):
         return ("seq", vkey(self.src), vkey(self.elem), self.enumerated)
+
+
+class Coll:
+    """A collected sequence (Vec / IndexMap / Array built from an iterator); iterating it again yields the same elements."""
+
+    def __init__(self, seq):
+        self.seq = seq
+
+    def key(self):
+        return ("collect", self.seq.key())
+
+
+class Arr:
+    """An array built by indexed writes inside loops over symbolic sequences: base value + guarded writes (an array comprehension)."""
+
+    def __init__(self, dims, base):
+        self.dims, self.base, self.writes = dims, base, []
+
+    def key(self):
+        return ("arr", tuple(vkey(d) for d in self.dims), vkey(self.base),
+                _srt((tuple(vkey(i) for i in w["idx"]), tuple(w["guards"]), tuple(w["loops"]), vkey(w["val"])) for w in self.writes))
 
 
 class Clo:
@@ -330,7 +355,7 @@ class Clo:
 def vkey(v):
     if isinstance(v, Poly):
         return v.key()
-    if isinstance(v, (Rec, Tup, Sym, Alt, Clo, Seq)):
+    if isinstance(v, (Rec, Tup, Sym, Alt, Clo, Seq, Coll, Arr)):
         return v.key()
     if isinstance(v, (tuple, list)):
         return tuple(vkey(x) for x in v)
@@ -348,6 +373,11 @@ def vfmt(v):
         return " | ".join("[%s] %s" % (g, vfmt(x)) for g, x in v.alts)
     if isinstance(v, Seq):
         return "seq(%s => %s)" % (vfmt(v.src), vfmt(v.elem))
+    if isinstance(v, Coll):
+        return "collect(" + vfmt(v.seq) + ")"
+    if isinstance(v, Arr):
+        return "arr%s{base %s; %s}" % ([vfmt(d) for d in v.dims], vfmt(v.base),
+                                       "; ".join("[%s] if %s := %s" % (",".join(vfmt(i) for i in w["idx"]), list(w["guards"]), vfmt(w["val"])) for w in v.writes))
     if isinstance(v, Sym) and v.tag and v.tag[0] == "ctor":
         return "%s(%s)" % (v.tag[1], ", ".join(vfmt(x) for x in v.tag[2:]))
     return repr(v)
@@ -380,6 +410,7 @@ class Ev:
         self.hooks = hooks or {}      # def-path suffix -> python function(ev, args_values, expr) -> value
         self._summary = {}
         self.zero_shapes = []         # shapes passed to zeros(..) constructors during the last evaluation
+        self.guards, self.loops = [], []   # path condition / enclosing loops while executing loop bodies for effect
 
     # ---- function summaries
     def apply_fn(self, name, args, depth):
@@ -503,7 +534,7 @@ class Ev:
         if op in ("And", "Or"):
             l, r = self.eval(e["l"], env, depth), self.eval(e["r"], env, depth)
             return Sym(op.lower(), vkey(l), vkey(r))
-        l, r = self.eval(e["l"], env, depth), self.eval(e["r"], env, depth)
+        l, r = num(self.eval(e["l"], env, depth)), num(self.eval(e["r"], env, depth))
         if isinstance(l, Rec) or isinstance(r, Rec):
             if op in ("Add", "Sub", "Mul", "Div", "Rem"):
                 return self.overloaded(e, [l, r], depth)
@@ -522,6 +553,12 @@ class Ev:
             if op in ("Lt", "Le", "Gt", "Ge") and callee and callee.endswith("partial_cmp") and self.facts.fn(callee) is not None:
                 return Sym("ord", op, vkey(self.apply_fn(callee, [l, r], depth)))
             return Sym("cmp", op, vkey(l), vkey(r))
+        if op == "Mul" and (isinstance(l, Arr) or isinstance(r, Arr)):
+            a, c = (l, r) if isinstance(l, Arr) else (r, l)
+            if isinstance(c, Poly) and c.order == 0:
+                out = Arr(a.dims, a.base * c if isinstance(a.base, Poly) else a.base)
+                out.writes = [dict(w, val=(w["val"] * c if isinstance(w["val"], Poly) else Sym("scaled", vkey(w["val"]), c.key()))) for w in a.writes]
+                return out
         if not (isinstance(l, Poly) and isinstance(r, Poly)) and op in ("Add", "Sub", "Mul", "Div", "Rem"):
             callee = e.get("resolved") or e.get("callee")
             if callee and self.facts.fn(callee) is not None:
@@ -575,7 +612,7 @@ class Ev:
             if isinstance(b, Rec):
                 fields.update(b.fields)
         for n, v in e["fields"]:
-            fields[n] = self.eval(v, env, depth)
+            fields[n] = num(self.eval(v, env, depth))
         adt = (e.get("ty") or e.get("def") or "?").split("<")[0]
         if e.get("dk") == "Variant":
             return Sym("ctor", e.get("def", "?").rsplit("::", 1)[-1], Rec(adt, fields))
@@ -614,8 +651,18 @@ class Ev:
                     self.assign(x["l"], self.arith(x["op"], cur, rhs, x, depth), env)
                 elif x.get("k") == "ret":
                     return Sym("return", vkey(self.eval(x["e"], env, depth)) if "e" in x else None)
-                elif x.get("k") in ("if", "match", "for", "while", "loop"):
+                elif x.get("k") == "for":
+                    self.exec_stmt(x, env, depth)
+                elif x.get("k") in ("if", "match") and x.get("ty") in ("()", None) and not self.loops:
+                    # statement-level branching with effects: fork the rest of the block per arm
+                    out = []
+                    for g, env_i in self.stmt_arms(x, env, depth):
+                        out.append((g, self._run_block(e, i + 1, env_i, depth)))
+                    return out[0][1] if len(out) == 1 else self.collapse(Alt(out))
+                elif x.get("k") in ("while", "loop"):
                     raise Unsupported("statement-level control flow (%s) at line %s" % (x["k"], x.get("ln")))
+                elif x.get("k") == "mcall" and x["m"] == "clone_from" and x["recv"].get("k") == "path" and x["recv"].get("res") == "local":
+                    env[x["recv"]["id"]] = self.eval(x["args"][0], env, depth)
                 else:
                     sv = self.eval(x, env, depth)  # evaluated for Unsupported detection; value dropped
                     if isinstance(sv, Sym) and sv.tag and sv.tag[0] == "diverges":
@@ -623,6 +670,140 @@ class Ev:
         if "e" in e:
             return self.eval(e["e"], env, depth)
         return Sym("unit")
+
+    # ---- executing statements for their effect on arrays (array comprehension semantics)
+    def stmt_arms(self, x, env, depth):
+        """[(guard, env after the arm)] for a statement-level if/match outside loops (path split)."""
+        out = []
+        if x["k"] == "match":
+            scrut = self.eval(x["e"], env, depth)
+            for a in x["arms"]:
+                env2 = fork_env(env)
+                r = self.match_pat(a["pat"], scrut, env2)
+                if r is False:
+                    continue
+                if r is None:
+                    env2 = fork_env(env)
+                    try:
+                        self.bind_pat_loose(a["pat"], scrut, env2)
+                    except Unsupported:
+                        pass
+                self.exec_stmt(a["body"], env2, depth)
+                out.append((("arm", pat_key(a["pat"]), vkey(scrut)), env2))
+                if r is True:
+                    return [out[-1]] if len(out) == 1 else out
+            return out
+        c = x["c"]
+        if c.get("k") == "letx":
+            v = self.eval(c["init"], env, depth)
+            env2 = fork_env(env)
+            g = ("arm", pat_key(c["pat"]), vkey(v))
+            self.bind_pat_loose(c["pat"], v, env2)
+        else:
+            g = ("if", vkey(self.eval(c, env, depth)))
+            env2 = fork_env(env)
+        self.exec_stmt(x["t"], env2, depth)
+        out.append((g, env2))
+        env3 = fork_env(env)
+        if "e" in x:
+            self.exec_stmt(x["e"], env3, depth)
+        out.append((("not", g), env3))
+        return out
+
+    def exec_block(self, b, env, depth):
+        for s in b["stmts"]:
+            if s["k"] == "let":
+                if "init" in s:
+                    self.bind(s["pat"], self.collapse(self.eval(s["init"], env, depth)), env)
+            elif s["k"] in ("expr", "semi"):
+                self.exec_stmt(s["e"], env, depth)
+        if "e" in b:
+            self.exec_stmt(b["e"], env, depth)
+
+    def exec_stmt(self, x, env, depth):
+        k = x.get("k")
+        if k == "block":
+            return self.exec_block(x, env, depth)
+        if k == "for":
+            it = self.eval(x["iter"], env, depth)
+            if isinstance(it, Coll):
+                it = it.seq
+            if isinstance(it, Rec) and it.adt.endswith("ops::Range"):
+                it = Seq(Sym("range", vkey(it.fields.get("start")), vkey(it.fields.get("end"))), lambda idx: idx)
+            if not isinstance(it, Seq):
+                el = self.elem_of(it)
+                if el is None:
+                    raise Unsupported("for loop over a value that is not a modelled sequence at line %s" % x.get("ln"))
+                it = Seq(it, el if callable(el) else (lambda idx, el=el: el))
+            name = "i%d" % len(self.loops)
+            self.bind(x["pat"], it.fn(Poly.atom(name)), env)
+            self.loops.append((name, vkey(it.src)))
+            try:
+                self.exec_stmt(x["body"], env, depth)
+            finally:
+                self.loops.pop()
+            return
+        if k == "if":
+            c = x["c"]
+            if c.get("k") == "letx":
+                v = self.eval(c["init"], env, depth)
+                g = ("arm", pat_key(c["pat"]), vkey(v))
+                self.bind_pat_loose(c["pat"], v, env)
+            else:
+                g = ("if", vkey(self.eval(c, env, depth)))
+            self.guards.append(g)
+            try:
+                self.exec_stmt(x["t"], env, depth)
+            finally:
+                self.guards.pop()
+            if "e" in x:
+                self.guards.append(("not", g))
+                try:
+                    self.exec_stmt(x["e"], env, depth)
+                finally:
+                    self.guards.pop()
+            return
+        if k == "match":
+            scrut = self.eval(x["e"], env, depth)
+            for a in x["arms"]:
+                r = self.match_pat(a["pat"], scrut, env)
+                if r is False:
+                    continue
+                if r is True:
+                    self.exec_stmt(a["body"], env, depth)
+                    return
+                self.bind_pat_loose(a["pat"], scrut, env)
+                self.guards.append(("arm", pat_key(a["pat"]), vkey(scrut)))
+                try:
+                    self.exec_stmt(a["body"], env, depth)
+                finally:
+                    self.guards.pop()
+            return
+        if k == "assign":
+            lhs = x["l"]
+            if lhs.get("k") == "index":
+                base = lhs["e"]
+                while base.get("k") in ("ref",) or (base.get("k") == "un" and base.get("op") == "Deref"):
+                    base = base["e"]
+                arr = self.eval(base, env, depth)
+                if isinstance(arr, Arr):
+                    iv = self.eval(lhs["i"], env, depth)
+                    idx = list(iv.items) if isinstance(iv, Tup) else [iv]
+                    arr.writes.append({"idx": idx, "guards": tuple(self.guards), "loops": tuple(self.loops), "val": self.eval(x["r"], env, depth)})
+                    return
+                raise Unsupported("indexed write into a value that is not a zero-initialised local array at line %s" % x.get("ln"))
+            self.assign(lhs, self.eval(x["r"], env, depth), env)
+            return
+        if k == "assignop":
+            cur = self.eval(x["l"], env, depth)
+            self.assign(x["l"], self.arith(x["op"], cur, self.eval(x["r"], env, depth), x, depth), env)
+            return
+        if k == "mcall" and x["m"] == "clone_from" and x["recv"].get("k") == "path" and x["recv"].get("res") == "local":
+            env[x["recv"]["id"]] = self.eval(x["args"][0], env, depth)
+            return
+        if k in ("while", "loop"):
+            raise Unsupported("loop form not modelled at line %s" % x.get("ln"))
+        self.eval(x, env, depth)
 
     def arith(self, op, l, r, e, depth):
         if isinstance(l, Rec) or isinstance(r, Rec):
@@ -804,12 +985,16 @@ class Ev:
         if (d.endswith("Arc::<T>::new") or d.endswith("Box::<T>::new")) and len(args) == 1:
             return args[0]
         if last == "from_iter" and len(args) == 1:
+            if isinstance(args[0], Seq):
+                return Coll(args[0])
             return Sym("collect", vkey(args[0]))
+        if last == "from_vec" and len(args) == 1 and isinstance(args[0], (Coll, Tup)):
+            return args[0]
         if last in ("zeros", "ones") and "ndarray" in d and len(args) == 1:
             shape = args[0].items if isinstance(args[0], Tup) else [args[0]]
             self.zero_shapes.append((last, tuple(vkey(x) for x in shape)))
             if last == "zeros":
-                return Poly({}, len(shape))
+                return Arr(shape, Poly.const(0))
             return Poly.tensor(("ones", tuple(vkey(x) for x in shape)), len(shape))
         if d.endswith("ndarray::Axis") or last == "Axis":
             return Sym("axis", vkey(args[0]))
@@ -834,25 +1019,42 @@ class Ev:
         if m in ("into_iter", "iter") and not args and not isinstance(recv, (Poly, Seq)):
             el = self.elem_of(recv)
             if el is not None:
-                return Seq(recv, el)
+                return Seq(recv, el if callable(el) else (lambda idx, el=el: el))
+        if isinstance(recv, Coll):
+            if m in ("into_iter", "iter") and not args:
+                return recv.seq
+            if m == "len" and not args:
+                return Poly.atom(("len", vkey(recv.seq.src), None))
         if isinstance(recv, Seq):
             if m in ("into_iter", "iter", "cloned", "copied", "by_ref") and not args:
                 return recv
             if m == "enumerate" and not args:
-                return Seq(recv.src, Tup([Poly.atom("i"), recv.elem]), True)
+                return Seq(recv.src, lambda idx, f0=recv.fn: Tup([idx, f0(idx)]), True)
             if m == "map" and len(args) == 1:
                 f = args[0]
                 if isinstance(f, Clo):
-                    env2 = dict(f.env)
-                    self.bind(f.params[0], recv.elem, env2)
-                    return Seq(recv.src, self.eval(f.body, env2, depth), recv.enumerated)
+                    def mapped(idx, f=f, f0=recv.fn):
+                        env2 = dict(f.env)
+                        self.bind(f.params[0], f0(idx), env2)
+                        return self.collapse(self.eval(f.body, env2, depth))
+                    return Seq(recv.src, mapped, recv.enumerated)
                 if isinstance(f, Sym) and f.tag[0] == "fn" and self.facts.fn(f.tag[1]) is not None:
-                    return Seq(recv.src, self.apply_fn(f.tag[1], [recv.elem], depth), recv.enumerated)
+                    return Seq(recv.src, lambda idx, f=f, f0=recv.fn: self.apply_fn(f.tag[1], [f0(idx)], depth), recv.enumerated)
                 raise Unsupported("map over a function value that is not modelled: %r" % (f,))
             if m == "collect" and not args:
-                return Sym("collect", vkey(recv))
+                return Coll(recv)
         if m in ERASE_METHODS and not args:
             return recv
+        if isinstance(recv, Sym) and recv.tag and recv.tag[0] == "ctor" and recv.tag[1] in ("Some", "None", "Ok", "Err"):
+            # Option / Result combinators on a known constructor
+            if recv.tag[1] in ("Some", "Ok") and m in ("unwrap", "expect", "unwrap_or", "unwrap_or_else", "unwrap_or_default") and len(recv.tag) == 3:
+                return recv.tag[2]
+            if recv.tag[1] == "None" and m == "unwrap_or" and len(args) == 1:
+                return args[0]
+            if recv.tag[1] == "None" and m == "unwrap_or_else" and len(args) == 1 and isinstance(args[0], Clo):
+                return self.collapse(self.eval(args[0].body, dict(args[0].env), depth))
+            if recv.tag[1] == "None" and m in ("unwrap", "expect"):
+                return Sym("diverges", "unwrap on None")
         if any(isinstance(a, Rec) for a in args) and not isinstance(recv, Rec) and self.facts.fn(d) is not None:
             return self.apply_fn(d, [recv] + args, depth)
         if isinstance(recv, Poly):
@@ -914,7 +1116,29 @@ class Ev:
         raise Unsupported("method %s (%s) on %s not modelled" % (m, d, vfmt(recv)[:80]))
 
 
+def num(v):
+    """An array that was only ever zero-initialised is the zero tensor."""
+    if isinstance(v, Arr) and not v.writes and isinstance(v.base, Poly) and v.base.is_zero():
+        return Poly({}, len(v.dims))
+    return v
+
+
+def fork_env(env):
+    out = {}
+    for k, v in env.items():
+        if isinstance(v, Arr):
+            a = Arr(v.dims, v.base)
+            a.writes = list(v.writes)
+            out[k] = a
+        elif isinstance(v, Rec):
+            out[k] = Rec(v.adt, dict(v.fields))
+        else:
+            out[k] = v
+    return out
+
+
 def as_poly(v):
+    v = num(v)
     if isinstance(v, Poly):
         return v
     raise Unsupported("expected a numeric value, got " + vfmt(v)[:80])
